@@ -692,7 +692,7 @@ func (c *Case) nToken() *Node {
 		coded(&Node{Kind: KBool, T: tof(TokFlag(false)), Name: "TokFlag"}),
 		coded(&Node{Kind: KSlice, T: tof(TokList(nil)), Name: "TokList", Elem: u16}),
 		coded(&Node{Kind: KBytes, T: tof(TokBytes(nil)), Name: "TokBytes"}),
-		coded(&Node{Kind: KMap, T: tof(TokMap(nil)), Name: "TokMap", Key: leaf(KUint8, numTypes[KUint8], ""), Elem: u16}),
+		coded(&Node{Kind: KMap, T: tof(TokMap(nil)), Name: "TokMap", Key: leaf(KUint64, numTypes[KUint64], ""), Elem: u16}),
 		coded(&Node{Kind: KStruct, T: tof(TokStruct{}), Name: "TokStruct", Fields: []*Field{field("A", 0, leaf(KUint8, numTypes[KUint8], ""))}}),
 	}}
 }
@@ -984,6 +984,25 @@ func (c *Case) genStruct(t *rapid.T, depth int, label string) *Node {
 			}
 		case 0, 1, 2:
 			f.N = c.genFixedLeaf(t, fl)
+			if f.N.Kind == KByteArr && f.N.Name == "" && rapid.IntRange(0, 2).Draw(t, fl+".arrbounds") == 0 {
+				// length bounds on a fixed-size byte array: mostly bounds that the array meets, sometimes bounds that it can
+				// never meet (then Encode and Decode both have to refuse under validation)
+				b := Settings{}
+				switch rapid.IntRange(0, 4).Draw(t, fl+".arrboundsKind") {
+				case 0:
+					b.Min = f.N.N
+				case 1:
+					b.Max = f.N.N
+				case 2:
+					b.Min, b.Max = 1, f.N.N+3
+				case 3:
+					b.Max = f.N.N - 1 // not met (0 = no bound for a one-byte array)
+				default:
+					b.Min = f.N.N + 1 // not met
+				}
+				f.N.S = b
+				setTS(b)
+			}
 		case 3:
 			// plain string with tag settings
 			s := drawStrSettings(t, fl)
